@@ -55,6 +55,7 @@ fn read_case(name: &str, bytes: &[u8], at: usize, kind: ErrorKind, chunk: usize,
 }
 
 fn check_read_fault(name: &str, bytes: &[u8], at: usize, kind: ErrorKind, chunk: usize, full: bool, acc: &mut Acc) {
+    let _g = crate::engine::watch::guard("read-fault", |s| s.push_str(&format!("{name} offset {at} kind {kind:?} chunk {chunk}")));
     acc.evals += 1;
     acc.transitions += (at / chunk.max(1)) as u64 + 1;
     let run = |full: bool| -> Result<Result<String, ErrorKind>, String> {
@@ -126,6 +127,7 @@ fn read_side(tier: Tier, acc_out: &mut Acc) -> Value {
                 for i in 0..decisions {
                     acc.evals += 1;
                     acc.transitions += decisions as u64;
+                    let _g = crate::engine::watch::bytes_guard(bytes);
                     let got = guarded(|| trace_res(Trace::decode(CutReader::new(bytes, &cuts, &[i]))));
                     if got.as_ref().ok() != Some(&base) {
                         acc.violation(Violation::new(
@@ -140,6 +142,7 @@ fn read_side(tier: Tier, acc_out: &mut Acc) -> Value {
                     for i in 0..decisions {
                         for j in i + 1..decisions + 1 {
                             acc.evals += 1;
+                            let _g = crate::engine::watch::bytes_guard(bytes);
                             let got = guarded(|| trace_res(Trace::decode(CutReader::new(bytes, &cuts, &[i, j]))));
                             if got.as_ref().ok() != Some(&base) {
                                 acc.violation(Violation::new(
@@ -173,6 +176,7 @@ fn write_case(name: &str, fault: &str, at: usize) -> Value {
 }
 
 fn check_write(name: &str, map: &mut Beatmap, good: &[u8], fault: WriteFault, at: usize, acc: &mut Acc) {
+    let _g = crate::engine::watch::guard("write-fault", |s| s.push_str(&format!("{name} offset {at} fault {fault:?}")));
     acc.evals += 1;
     acc.transitions += 1;
     let mut w = FaultWriter::new(fault, at);
